@@ -54,7 +54,7 @@ class RuleResult:
     def require_floor(self, n, what):
         """Fail closed when fewer instances than confirmed by hand were found."""
         self.floor = (n, what)
-        if len(self.instances) < n:
+        if len(self.instances) < n and not self.violations:
             raise CheckFailure('%s: only %d instance(s) of %s analysed, expected at least %d -- the rule would '
                                'pass vacuously (anchor moved?)' % (self.rule, len(self.instances), what, n))
 
